@@ -609,6 +609,7 @@ impl Property for C13 {
          every exception over <= 3 letters x every one-digit pattern 0..9 over the same letters; \
          random: 1..14 patterns over {a,b,c} (or {a,b,e-acute}) with digits 0..9, lengths 1..40, anchored/nested/overlapping, exception lists, 2..8 words of length 1..40 in mixed case, some malformed patterns and non-letter words (I vs M only); \
          plain: Hyphenator::plain_tex_en_us() on the crate's test words and on words from the repository's markdown files. \
+large sets: the family of all letter strings of length 2..4 over 17..26 letters with a digit in every slot (676 .. 83 521 patterns, op tables of 2.7 KB .. 501 KB incl. 65 535 / 65 540 / 66 000 / 87 880 bytes, up to 88 740 trie vertices) loaded in one call, late extras and exceptions, words on early and late patterns: real code vs specification; \
          histories: one hyphenator through a random sequence of load_patterns / insert_exceptions / insert_exception / query ops over a small alphabet (words of 1..5 letters so that queries, exceptions and `.w.` patterns hit the same words), every earlier word asked again (any letter case) after each mutation, every query compared with model and spec of the state at that point; the same on top of plain_tex_en_us(). \
          One case = one hyphenator and several words. Non-trivial = at least one pattern or exception matched some word of the case (matched patterns > 0); distinct = distinct case string."
             .into()
@@ -636,6 +637,15 @@ impl Property for C13 {
             // the empty word, the empty exception (`~` = empty item), an exception that is only a hyphen
             "h a 1a,.a.,.1.,. ~,-,a- ~,a,aa".into(),
             "h a a1 _ ~".into(),
+            // large pattern sets: op tables around and beyond 2^16 bytes (5 bytes per 3-letter
+            // pattern: 13 107 patterns = 65 535 bytes), words on early and late patterns, late extras
+            // and exceptions; 88 740 trie vertices (4 letters over 17)
+            Self::big_case("a", 3, 26, 17576, 3, &[0, 57, 4000, 13000, 13106, 13107, 13108, 13200, 15000, 17000, 17575]),
+            Self::big_case("a", 3, 26, 13107, 7, &[1, 13000, 13105, 13106]),
+            Self::big_case("a", 3, 26, 13108, 7, &[1, 13000, 13106, 13107]),
+            Self::big_case("a", 3, 26, 13200, 1, &[2, 6553, 13100, 13107, 13150, 13199]),
+            Self::big_case("t", 4, 17, 83521, 3, &[0, 5000, 10922, 10923, 30000, 65535, 65536, 70000, 83520]),
+            Self::big_case("a", 2, 26, 676, 3, &[0, 100, 675]),
             // histories: a word is asked, then an exception for it is declared, then it is asked again
             "s a Pa1b^00201c,Qabab,Qcab,Xab-ab,Xcab,Qabab,QAbab,Qcab,QABAB,Qababc".into(),
             "s a Pa1b,Qab,Ea-b^000Ab-a,Qab,Qba,Pb1a,Qba,QAB,Xab,Qab".into(),
@@ -768,6 +778,9 @@ impl Property for C13 {
     fn run_case(&mut self, case: &str, drv: &mut Driver) -> CaseOutcome {
         if case.starts_with("s ") {
             return self.run_seq(case, drv);
+        }
+        if case.starts_with("big ") {
+            return self.run_big(case, drv);
         }
         let mut out = CaseOutcome::default();
         let mut p = parse_case(case);
@@ -915,6 +928,9 @@ impl Property for C13 {
     fn shrink(&self, case: &str) -> Vec<String> {
         if case.starts_with("s ") {
             return Self::shrink_seq(case);
+        }
+        if case.starts_with("big ") {
+            return Self::shrink_big(case);
         }
         let p = parse_case(case);
         let mut c = vec![];
@@ -1209,6 +1225,191 @@ impl C13 {
             }
         }
         show_ops(if table { "t" } else { "a" }, &ops)
+    }
+}
+
+// ------------------------------------------------------------------------------------------
+// Large pattern sets: `big <lc> <len> <alpha> <count> <k> <extras> <exceptions> <words>`.
+// The family `fam_pattern(len, alpha, k, i)`, i < count (every letter string of length `len` over
+// the first `alpha` letters, a digit in every slot: `len + 2` op bytes each), loaded in one
+// `load_patterns` call, then the explicit extras, then the exceptions: op tables and vertex
+// numbers beyond 2^16. Real code vs the Lean specification on the queried words.
+// ------------------------------------------------------------------------------------------
+
+fn fam_letters(len: usize, alpha: usize, i: usize) -> String {
+    (0..len).map(|j| (b'a' + ((i / alpha.pow((len - 1 - j) as u32)) % alpha) as u8) as char).collect()
+}
+fn fam_pattern(len: usize, alpha: usize, k: usize, i: usize) -> String {
+    let l: Vec<char> = fam_letters(len, alpha, i).chars().collect();
+    let dig = |j: usize| (b'0' + ((i * k + j * (k + 2) + i / 7) % 10) as u8) as char;
+    let mut s = String::new();
+    for j in 0..len {
+        s.push(dig(j));
+        s.push(l[j]);
+    }
+    s.push(dig(len));
+    s
+}
+
+impl C13 {
+    /// A big case whose words hit the patterns with the given indices (alone, joined in pairs,
+    /// upper case), with late extras and exceptions for some of them.
+    fn big_case(lc: &str, len: usize, alpha: usize, count: usize, k: usize, idxs: &[usize]) -> String {
+        let mut words: Vec<String> = vec![];
+        let mut excs: Vec<String> = vec![];
+        let mut extras: Vec<String> = vec![];
+        for (n, &i) in idxs.iter().enumerate() {
+            let a = fam_letters(len, alpha, i);
+            let b = fam_letters(len, alpha, idxs[(n + 1) % idxs.len()]);
+            words.push(a.clone());
+            words.push(format!("{a}{b}"));
+            words.push(format!("{b}{a}").to_uppercase());
+            if n % 3 == 0 {
+                // an exception (inserted after the whole table) for the joined word
+                let w = format!("{a}{b}");
+                let cut = 1 + (i % (w.len() - 1));
+                excs.push(format!("{}-{}", &w[..cut], &w[cut..]));
+            }
+            if n % 3 == 1 {
+                // a late explicit pattern over len+1 letters (no key of the family)
+                let w = format!("{a}{}", &b[..1]);
+                extras.push(format!("{}{}{}", &w[..2], 5 + (i % 5), &w[2..]));
+                words.push(format!("{w}{b}"));
+            }
+        }
+        format!("big {lc} {len} {alpha} {count} {k} {} {} {}", unitems(&extras), unitems(&excs), unitems(&words))
+    }
+
+    fn run_big(&mut self, case: &str, drv: &mut Driver) -> CaseOutcome {
+        let mut out = CaseOutcome::default();
+        let f: Vec<&str> = case.split(' ').collect();
+        assert_eq!(f.len(), 9, "bad case {case}");
+        let lc = f[1];
+        let (len, alpha, count, k): (usize, usize, usize, usize) = (f[2].parse().unwrap(), f[3].parse().unwrap(), f[4].parse().unwrap(), f[5].parse().unwrap());
+        let (extras, excs, words) = (items(f[6]), items(f[7]), items(f[8]));
+        let op_bytes = count * (len + 2);
+        out.tag(match op_bytes {
+            0..=65535 => "big:op-table<2^16",
+            65536..=131071 => "big:op-table>=2^16",
+            _ => "big:op-table>=2^17",
+        });
+        let vertices: usize = (1..=len).map(|j| alpha.pow(j as u32).min(count)).sum();
+        out.tag(if vertices >= 65536 { "big:vertices>=2^16" } else { "big:vertices<2^16" });
+        let built = caught(|| {
+            let mut text = String::with_capacity(count * (2 * len + 2));
+            for i in 0..count {
+                text.push_str(&fam_pattern(len, alpha, k, i));
+                text.push(if i % 8 == 7 { '\n' } else { ' ' });
+            }
+            let mut h: Hyphenator = Default::default();
+            h.load_patterns(&text);
+            if !extras.is_empty() {
+                h.load_patterns(&extras.join(" "));
+            }
+            for (n, e) in excs.iter().enumerate() {
+                if n % 2 == 0 {
+                    h.insert_exception(e);
+                } else {
+                    h.insert_exceptions(&format!("{e}\n"));
+                }
+            }
+            h
+        });
+        let h = match built {
+            Ok(h) => h,
+            Err(e) => {
+                out.fail(Kind::ImplPanic, "big-build", format!("panic {}", strip_msg(&e)), format!("loading {count} patterns panicked: {e}"));
+                return out;
+            }
+        };
+        let runs: Vec<WordRun> = words.iter().map(|w| if lc == "t" { run_word(&h, &TableLc, w) } else { run_word(&h, &AsciiLowerCaser::default(), w) }).collect();
+        let impl_field: Vec<String> = runs
+            .iter()
+            .map(|r| match &r.indices {
+                Ok(v) => dots(v),
+                Err(_) => "P".into(),
+            })
+            .collect();
+        let req = format!("{case} {}", impl_field.join(","));
+        let reply = drv.ask(&req);
+        let per: Vec<&str> = reply.split(';').collect();
+        assert_eq!(per.len(), words.len(), "driver reply has wrong number of words: {reply}");
+        for ((w, run), m) in words.iter().zip(&runs).zip(&per) {
+            let g: Vec<&str> = m.split(':').collect();
+            assert_eq!(g.len(), 5, "per-word reply malformed: {m}");
+            let (s_idx, verdict, is_exc, in_q, rel) = (g[0], g[1], g[2] == "x", g[3] == "q", g[4]);
+            out.nontrivial |= run.matched > 0;
+            out.tag(if is_exc { "big:word-is-exception" } else { "big:word" });
+            let ctx = |what: &str| format!("{what}\nword: {w}\nfamily: len {len} alphabet {alpha} count {count} k {k} ({op_bytes} op bytes), relevant patterns: {rel}\nextras: {}\nexceptions: {}", f[6], f[7]);
+            let idx = match &run.indices {
+                Ok(v) => v,
+                Err(e) => {
+                    out.fail(Kind::ImplPanic, "big-indices", format!("panic {}", strip_msg(e)), ctx(&format!("calculate_indices panicked: {e}")));
+                    continue;
+                }
+            };
+            if !in_q || verdict == "-" {
+                continue;
+            }
+            let sig = if is_exc { "listed exception not returned as listed" } else { "positions differ from Liang's definition" };
+            if verdict != "1" {
+                out.fail(Kind::ImplVsSpec, "big-spec", sig, ctx(&format!("impl indices: {}\nspec indices: {s_idx}", dots(idx))));
+            }
+            if let Ok(hs) = &run.hyphenated {
+                let mut pos = vec![];
+                let mut i = 0usize;
+                for c in hs.chars() {
+                    if c == '-' {
+                        pos.push(i);
+                    } else {
+                        i += 1;
+                    }
+                }
+                if dots(&pos) != s_idx {
+                    out.fail(Kind::ImplVsSpec, "big-hypthenate", "hypthenate: hyphens not exactly at the specified positions", ctx(&format!("hypthenate: {hs}\nspec indices: {s_idx}")));
+                }
+            }
+            if let Ok(sc) = &run.scores {
+                let odd: Vec<usize> = sc.iter().enumerate().filter(|(_, x)| *x % 2 != 0).map(|(i, _)| i).collect();
+                if dots(&odd) != s_idx {
+                    out.fail(Kind::ImplVsSpec, "big-explanation", "calculate_explanation: odd aggregate scores not exactly at the specified positions", ctx(&format!("scores: {}\nspec indices: {s_idx}", dots(sc))));
+                }
+            }
+        }
+        out
+    }
+
+    fn shrink_big(case: &str) -> Vec<String> {
+        let f: Vec<&str> = case.split(' ').collect();
+        let (extras, excs, words) = (items(f[6]), items(f[7]), items(f[8]));
+        let mk = |count: &str, extras: &[String], excs: &[String], words: &[String]| format!("big {} {} {} {} {} {} {} {}", f[1], f[2], f[3], count, f[5], unitems(extras), unitems(excs), unitems(words));
+        let mut c = vec![];
+        if words.len() > 1 {
+            for w in &words {
+                c.push(mk(f[4], &extras, &excs, std::slice::from_ref(w)));
+            }
+        }
+        for i in 0..excs.len() {
+            let mut e = excs.clone();
+            e.remove(i);
+            c.push(mk(f[4], &extras, &e, &words));
+        }
+        for i in 0..extras.len() {
+            let mut e = extras.clone();
+            e.remove(i);
+            c.push(mk(f[4], &e, &excs, &words));
+        }
+        // fewer patterns (bisection on the count)
+        let count: usize = f[4].parse().unwrap();
+        let mut step = count / 2;
+        while step >= 1 {
+            c.push(mk(&(count - step).to_string(), &extras, &excs, &words));
+            if step == 1 {
+                break;
+            }
+            step /= 2;
+        }
+        c
     }
 }
 
